@@ -4,6 +4,9 @@ import AkVerif.Lemmas.LLTransfer2
 import AkVerif.Lemmas.LLCtorRec
 import AkVerif.Lemmas.LLTmpl
 import AkVerif.Lemmas.LLCtorRecG
+import AkVerif.Lemmas.LLCtorN
+import AkVerif.Lemmas.LLUserSets
+import AkVerif.Lemmas.LLTmplC02
 /-!
 # C03 — left-recursive grammars are rejected; accepted grammars always terminate
 
@@ -72,32 +75,36 @@ theorem rejected_user_cyclic (inp : CtorIn) (U G : Prods Sym) (S NG NU : List Sy
     ∃ X, Plus (Reach1 U NU) X X :=
   LL.rejected_user_cyclic hD hU hF hNG hNU hrec
 
-/-- **The first sentence of the property, at the level of the constructor — CONDITIONAL**: under the hypothesis
-that every *other* stage of the constructor succeeds (`hD` terminal names without `__`, `hskip` skip set, `hU`
-`_create_productions`, `hF` `_factorize_productions`, `hV` `_verify_grammar_structure_part1`, `hN` nullables,
-`hFi` FIRST, `hFo` FOLLOW, `hT` table — a failure of one of them is another exception class or error code, about
-which the property says nothing), the constructor raises `GrammarIsRecursive` **iff** some symbol
-of the productions the user wrote reaches itself without consuming a token (`NU` = least nullable set
-of the user's dictionary; `hNU` always holds for some `NU`: `nullables_total`), and it returns a parser iff there
-is no such symbol. Both `smart_factorization` values, every assignment of names.
-The hypotheses are met by every input the constructor accepts (`ctor_recursive_hyps_met`), so for accepted
-inputs the statement is unconditional (`accepted_user_acyclic`); for rejected ones it is conditional on the
-other stages (the model has no proof that they cannot fail for a well-formed dictionary). -/
-theorem ctor_recursive_iff (inp : CtorIn) (skip : List Sym) (U G : Prods Sym) (S NG NU : List Sym)
-    (first follow : SetMap Sym) (table : Table Sym)
+/-- **Between part 1 of the structure check and the recursion check nothing can fail**: once
+`_verify_grammar_structure_part1` has passed (every right-hand side symbol is a terminal or a key, the start symbol
+is a key), `_get_nullables`, `_calc_first_sets`, `_calc_follow_sets` and `_make_llone_table` all return — no
+`KeyError`, no failed `assert non_term in nullables`, the fuel of the three loops suffices.  Generic lemma:
+`LL.sets_total`. -/
+theorem later_stages_total (terms : List Sym) (start : Sym) (G : Prods Sym)
+    (hV : verifyPart1 terms start G = .ok ()) (hend : endSym ∈ terms) :
+    ∃ N F W Tb, nullables G = .ok N ∧ firstSets terms N G = .ok F ∧
+      followSets terms N F G start endSym = .ok W ∧ mkTable terms N F W G = .ok Tb :=
+  LL.later_stages_total hV hend
+
+/-- **The first sentence of the property, at the level of the constructor**: when the stages of the constructor
+that raise *other* exceptions succeed (`hD` terminal names without `__` — else `AssertionError`; `hskip` skip set —
+else `GrammarError`; `hU` `_create_productions` and `hF` `_factorize_productions` — else `AssertionError`; `hV`
+`_verify_grammar_structure_part1` — else `GrammarError`), the constructor raises `GrammarIsRecursive` **iff** some
+symbol of the productions the user wrote reaches itself without consuming a token (`NU` = least nullable set of the
+user's dictionary; `hNU` always holds for some `NU`: `nullables_total`), and it returns a parser iff there is no
+such symbol.  Both `smart_factorization` values, every assignment of names.  No hypothesis on nullables / FIRST /
+FOLLOW / the table of the factorised dictionary any more: they cannot fail (`later_stages_total`).
+The hypotheses are met by every input the constructor accepts (`ctor_recursive_hyps_met`). -/
+theorem ctor_recursive_iff (inp : CtorIn) (skip : List Sym) (U G : Prods Sym) (S NU : List Sym)
     (hD : (tokenNames inp).any (fun t => hasDunder t.name) = false)
     (hskip : skipSet inp (tokenNames inp) = .ok skip)
     (hU : createProds 0 inp.prods [] = .ok U)
     (hF : factorize (tokenNames inp) U inp.smart = .ok (G, S))
     (hV : verifyPart1 (sadd (tokenNames inp) endSym) (parseSym inp.start) G = .ok ())
-    (hN : nullables G = .ok NG)
-    (hFi : firstSets (sadd (tokenNames inp) endSym) NG G = .ok first)
-    (hFo : followSets (sadd (tokenNames inp) endSym) NG first G (parseSym inp.start) endSym = .ok follow)
-    (hT : mkTable (sadd (tokenNames inp) endSym) NG first follow G = .ok table)
     (hNU : nullables U = .ok NU) :
     (construct inp = .error .grammarIsRecursive ↔ ∃ X, Plus (Reach1 U NU) X X) ∧
     ((∃ P, construct inp = .ok P) ↔ ¬ ∃ X, Plus (Reach1 U NU) X X) :=
-  construct_rec_iff hD hskip hU hF hV hN hFi hFo hT hNU
+  construct_rec_iff' hD hskip hU hF hV hNU
 
 /-- `_get_nullables` is total: the hypothesis `hNU` of `ctor_recursive_iff` can always be met -/
 theorem nullables_total (U : Prods Sym) : ∃ NU, nullables U = .ok NU := LL.nullables_total U
@@ -118,32 +125,48 @@ theorem ctor_recursive_hyps_met (inp : CtorIn) (P : Parser) (hP : construct inp 
   construct_stages_of_ok hP
 
 /-- **The same iff for dictionaries written with production templates** (`ProdSequence`, `ListProds`,
-`MapProds`): `constructG T` is the constructor with the templates' generated productions as data `T`; `U` is the
+`MapProds`): `constructGN nonull T` is the constructor the driver executes — the templates' generated productions
+are the data `T`, `nonull` the item symbols of the list templates without a delimiter; `U` is the
 **expanded** dictionary (`createProdsT T`: every template key replaced by the productions it generates — the
-dictionary the harness's reference left-recursion test runs on). Conditional on the other stages exactly as
-`ctor_recursive_iff`; `hpl`: no name of the dictionary has the shape of a helper name `X__Snn` (decidable). -/
-theorem ctor_recursive_iff_templates (T : Tmpl) (inp : CtorIn) (skip : List Sym) (U G : Prods Sym)
-    (S NG NU : List Sym) (first follow : SetMap Sym) (table : Table Sym) (hpl : PlainNames inp.prods)
+dictionary the harness's reference left-recursion test runs on).  Besides the stages of `ctor_recursive_iff`:
+`hVT` — the templates' own `verify_grammar` passes (no item of a delimiter-less list is nullable; otherwise the
+constructor raises `GrammarError` *before* the recursion check: `ctor_grammarError_templates`);
+`hpl`: no name of the dictionary has the shape of a helper name `X__Snn` (decidable). -/
+theorem ctor_recursive_iff_templates (nonull : List (List Char)) (T : Tmpl) (inp : CtorIn) (skip : List Sym)
+    (U G : Prods Sym) (S NG NU : List Sym) (hpl : PlainNames inp.prods)
     (hD : (tokenNames inp).any (fun t => hasDunder t.name) = false)
     (hskip : skipSet inp (tokenNames inp) = .ok skip)
     (hU : createProdsT T 0 inp.prods [] = .ok U)
     (hF : factorize (tokenNames inp) U inp.smart = .ok (G, S))
     (hV : verifyPart1 (sadd (tokenNames inp) endSym) (parseSym inp.start) G = .ok ())
     (hN : nullables G = .ok NG)
-    (hFi : firstSets (sadd (tokenNames inp) endSym) NG G = .ok first)
-    (hFo : followSets (sadd (tokenNames inp) endSym) NG first G (parseSym inp.start) endSym = .ok follow)
-    (hT : mkTable (sadd (tokenNames inp) endSym) NG first follow G = .ok table)
+    (hVT : ∀ n ∈ nonull, parseSym n ∉ NG)
     (hNU : nullables U = .ok NU) :
-    (constructG T inp = .error .grammarIsRecursive ↔ ∃ X, Plus (Reach1 U NU) X X) ∧
-    ((∃ P, constructG T inp = .ok P) ↔ ¬ ∃ X, Plus (Reach1 U NU) X X) :=
-  constructG_rec_iff hpl hD hskip hU hF hV hN hFi hFo hT hNU
+    (constructGN nonull T inp = .error .grammarIsRecursive ↔ ∃ X, Plus (Reach1 U NU) X X) ∧
+    ((∃ P, constructGN nonull T inp = .ok P) ↔ ¬ ∃ X, Plus (Reach1 U NU) X X) :=
+  constructGN_rec_iff' hpl hD hskip hU hF hV hN hVT hNU
+
+/-- **`ListProds.verify_grammar` comes first**: a list template without a delimiter whose item symbol is nullable
+makes the constructor raise `GrammarError` — whether or not the expanded grammar (`L → I L | ε`, left recursive
+through the nullable `I`) would also fail the recursion check. -/
+theorem ctor_grammarError_templates (nonull : List (List Char)) (T : Tmpl) (inp : CtorIn) (skip : List Sym)
+    (U G : Prods Sym) (S NG : List Sym)
+    (hD : (tokenNames inp).any (fun t => hasDunder t.name) = false)
+    (hskip : skipSet inp (tokenNames inp) = .ok skip)
+    (hU : createProdsT T 0 inp.prods [] = .ok U)
+    (hF : factorize (tokenNames inp) U inp.smart = .ok (G, S))
+    (hV : verifyPart1 (sadd (tokenNames inp) endSym) (parseSym inp.start) G = .ok ())
+    (hN : nullables G = .ok NG) (n : List Char) (hn : n ∈ nonull) (hnull : parseSym n ∈ NG) :
+    constructGN nonull T inp = .error .grammarError :=
+  constructGN_grammarError hD hskip hU hF hV hN hn hnull
 
 /-- an accepted dictionary with templates is not left recursive — stated on the **expanded** productions
 (unconditional) -/
-theorem accepted_user_acyclic_templates (T : Tmpl) (inp : CtorIn) (P : Parser) (hP : constructG T inp = .ok P)
+theorem accepted_user_acyclic_templates (nonull : List (List Char)) (T : Tmpl) (inp : CtorIn) (P : Parser)
+    (hP : constructGN nonull T inp = .ok P)
     (hpl : PlainNames inp.prods) (NU : List Sym) (hNU : nullables P.userProds = .ok NU) :
     ¬ ∃ X, Plus (Reach1 P.userProds NU) X X :=
-  acceptedG_user_acyclic hP hpl hNU
+  acceptedG_user_acyclic (constructGN_ok hP) hpl hNU
 
 /-- **Stack bound** (generic): under the hypotheses of the termination theorem, a stack satisfying
 the invariant has at most `(|tokens| + 1) · (R + 1)` frames, `R` bounding the ranks of its symbols:
@@ -192,16 +215,18 @@ theorem parse_total (inp : CtorIn) (P : Parser) (hP : construct inp = .ok P)
 
 /-- **Termination, totality and the stack bound for dictionaries with production templates**
 (`ProdSequence`, `ListProds`, `MapProds`; whatever productions the templates generate — they are data `T`, no
-condition on them): a dictionary the constructor accepts has no cycle, and `parse` returns a tree or raises
+condition on them; `constructGN nonull T`: the constructor the driver executes): a dictionary the constructor accepts has no cycle, and `parse` returns a tree or raises
 `ParsingError` on every input with a stack below `(|tokens|+1)·B`.  (A `ProdSequence` with a nullable member,
 `S → S__ELEMENT S`, is therefore never accepted.) -/
-theorem templates_total (T : Tmpl) (inp : CtorIn) (P : Parser) (hP : constructG T inp = .ok P) :
+theorem templates_total (nonull : List (List Char)) (T : Tmpl) (inp : CtorIn) (P : Parser)
+    (hP : constructGN nonull T inp = .ok P) :
     (¬ ∃ X, Plus (Reach1 P.prods P.nullables) X X) ∧
     (∀ raw, ∃ k, ∀ fuel, k ≤ fuel →
       (∃ t, P.parse raw fuel = .ok t) ∨ P.parse raw fuel = .error .parsingError) ∧
     (∃ B, ∀ raw n st, iter P.cfg (P.tokens raw) n (initStack startSym P.start endSym) = .cont st →
       st.length ≤ ((P.tokens raw).length + 1) * B) :=
-  ⟨accepted_no_cycle_G hP, fun raw => parse_total_G hP raw, stack_bound_G hP⟩
+  ⟨accepted_no_cycle_G (constructGN_ok hP), fun raw => parse_total_G (constructGN_ok hP) raw,
+    stack_bound_G (constructGN_ok hP)⟩
 
 /-- **Totality of `parse(text, start_symbol_name=s)`**, any `s`: `AssertionError` when `s` is not a key
 of the factorised dictionary, otherwise a tree or `ParsingError` — the explicit start symbol cannot
@@ -211,6 +236,13 @@ theorem parse_from_total (inp : CtorIn) (P : Parser) (hP : construct inp = .ok P
     ∃ k, ∀ fuel, k ≤ fuel → (∃ t, P.parseFrom s raw fuel = .ok t) ∨
       P.parseFrom s raw fuel = .error .parsingError ∨ P.parseFrom s raw fuel = .error .assertion :=
   parseFrom_total (construct_built hP) s raw
+
+/-- **Totality of `parse(text, start_symbol_name=s)` on a dictionary with templates**, any `s`. -/
+theorem parse_from_total_templates (nonull : List (List Char)) (T : Tmpl) (inp : CtorIn) (P : Parser)
+    (hP : constructGN nonull T inp = .ok P) (s : List Char) (raw : List (List Char × List Char)) :
+    ∃ k, ∀ fuel, k ≤ fuel → (∃ t, P.parseFrom s raw fuel = .ok t) ∨
+      P.parseFrom s raw fuel = .error .parsingError ∨ P.parseFrom s raw fuel = .error .assertion :=
+  parseFrom_total_G (constructG_built (constructGN_ok hP)) s raw
 
 /-! Non-vacuity: the defect witness `E → A E X | Y ; A → Z | ε` (left recursion hidden behind the
 earlier-sorted nullable `A`) is rejected with `GrammarIsRecursive` by the model of the repaired
@@ -245,6 +277,26 @@ def okInp : CtorIn :=
 
 example : (match construct okInp with
     | .ok P => (match P.parse [("Y".toList, "y".toList), ("Y".toList, "y".toList)] 1000 with
+                | .ok _ => true | .error _ => false)
+    | .error _ => false) = true := by decide +kernel
+
+/-! `ListProds.verify_grammar` comes before the recursion check: `L = ListProds(None, 'I', None, None)` expands to
+`L → I L | ε`; with `I → a | ε` (nullable item) the expanded dictionary is left recursive, the constructor without the
+templates' stage answers `GrammarIsRecursive`, the real constructor — and `constructGN` with `nonull = [I]` — answers
+`GrammarError`; with a non-nullable item both accept. -/
+def listInp (nullableItem : Bool) : CtorIn :=
+  { groups := ["SPACE".toList, "a".toList], syn := [], kw := [], skip := none, start := "L".toList,
+    prods := [("L".toList, [["I".toList, "L".toList], []]),
+              ("I".toList, if nullableItem then [["a".toList], []] else [["a".toList]])],
+    smart := true }
+
+def listT : Tmpl := ⟨["L".toList], []⟩
+
+example : (match constructGN ["I".toList] listT (listInp true), constructG listT (listInp true) with
+    | .error .grammarError, .error .grammarIsRecursive => true
+    | _, _ => false) = true := by decide +kernel
+example : (match constructGN ["I".toList] listT (listInp false) with
+    | .ok P => (match P.parse [("a".toList, "a".toList), ("a".toList, "a".toList)] 1000 with
                 | .ok _ => true | .error _ => false)
     | .error _ => false) = true := by decide +kernel
 
